@@ -254,6 +254,10 @@ def new_socket_connection(
         source_address: Optional[HostPort] = None,
 ) -> socket.socket:
     conn = None
+    # IPv6 literals are kept within brackets by the url parser
+    # e.g. [::1], neither ipaddress nor the resolver accept them.
+    if addr[0].startswith('[') and addr[0].endswith(']'):
+        addr = (addr[0][1:-1], addr[1])
     try:
         ip = ipaddress.ip_address(addr[0])
         if ip.version == 4:
